@@ -9,15 +9,16 @@ from ..flow import ANY_EXC, CANCEL
 from ..model import AnalysisError, ClassInfo, FuncInfo, Project, call_name, kwarg, walk_local
 from ..paths import PState, PathAnalysis, run_paths, subst_text
 from ..report import Report
+from ..roles import incoming_send_calls, stream_roles
 from ..summaries import contained, fallible_except_contained
 from .c11 import grammar_rule
 
 # R5: handlers that absorb CancelledError without re-raising, one reason per symbol
 CANCEL_ABSORBERS = {
-    "chuk_mcp.transports.sse.transport:SSETransport._cleanup": "awaits a task it has just cancelled itself; the CancelledError is that task's, the standard cancel-and-join idiom",
-    "chuk_mcp.transports.sse.transport:SSETransport._send_message_via_http": "waits on a per-request future that only _cleanup cancels; the request ends with the transport",
-    "chuk_mcp.transports.sse.transport:SSETransport._handle_sse_connection": "outermost handler of the connection task's entry function",
-    "chuk_mcp.transports.sse.transport:SSETransport._outgoing_message_handler": "outermost handler of the sender task's entry function",
+    "cleanup": "awaits a task it has just cancelled itself; the CancelledError is that task's, the standard cancel-and-join idiom",
+    "poster": "waits on a per-request future that only _cleanup cancels; the request ends with the transport",
+    "connection-entry": "outermost handler of the connection task's entry function",
+    "sender-entry": "outermost handler of the sender task's entry function",
 }
 RELEASES = {"aclose", "cancel", "__aexit__", "close"}
 
@@ -32,9 +33,31 @@ def check(P: Project, R: Report) -> None:
     ci = P.cls(A.MOD_SSE, "SSETransport")
     meths = P.methods(ci)
     rel = ci.module.rel
-    for need in ("__aenter__", "__aexit__", "_cleanup"):
+    for need in ("__aenter__", "__aexit__"):
         R.need(need in meths, f"anchor vanished: SSETransport.{need}")
-    cleanup = meths["_cleanup"]
+    # roles, found from the public context-manager protocol (private names are the maintainer's to choose):
+    # the cleanup routine is the self-method __aexit__ awaits first; the connection task's entry is the self-method
+    # __aenter__ starts as a task that is not the sender loop over the outgoing stream
+    cleanup = None
+    for s in meths["__aexit__"].node.body:
+        if isinstance(s, ast.Expr) and isinstance(s.value, ast.Constant):
+            continue
+        if isinstance(s, ast.Expr) and isinstance(s.value, ast.Await) and isinstance(s.value.value, ast.Call) and call_name(s.value.value).startswith("self."):
+            cleanup = meths.get(call_name(s.value.value)[5:])
+        break
+    R.need(cleanup is not None, "anchor vanished: __aexit__ does not start by awaiting a cleanup method of the transport")
+    out_recv = "self." + stream_roles(P, ci)["outgoing_recv"]
+    conn_entry = sender_entry = None
+    for c in walk_local(meths["__aenter__"].node):
+        if isinstance(c, ast.Call) and call_name(c).split(".")[-1] in ("create_task", "ensure_future", "start_soon") and c.args:
+            a0 = c.args[0]
+            nm = call_name(a0) if isinstance(a0, ast.Call) else ast.unparse(a0)
+            tgt = meths.get(nm[5:]) if nm.startswith("self.") else None
+            if tgt is not None and not any(isinstance(n, (ast.AsyncFor, ast.For)) and out_recv in ast.unparse(n.iter) for n in walk_local(tgt.node)):
+                conn_entry = tgt
+            elif tgt is not None:
+                sender_entry = tgt
+    R.need(conn_entry is not None, "anchor vanished: __aenter__ starts no connection task")
 
     # ------------------------------------------------------------------ R1
     ae = meths["__aenter__"]
@@ -71,7 +94,7 @@ def check(P: Project, R: Report) -> None:
     R.need(len(posters) == 1, f"anchor: expected one SSETransport method issuing the POST, found {len(posters)}")
     send = posters[0]
     R.fn(send.fq)
-    routers = [f for f in meths.values() if any(isinstance(x, ast.Call) and call_name(x) in ("self._incoming_send.send", "self._incoming_send.send_nowait") for x in walk_local(f.node))]
+    routers = [f for f in meths.values() if any(isinstance(x, ast.Call) and call_name(x) in incoming_send_calls(P, ci) for x in walk_local(f.node))]
     R.need(len(routers) == 1, "anchor: router onto the incoming stream not found")
     router = routers[0]
     R.ob("R3", "the router is contained", contained(P, router), router.where, "a routing failure would reach the send routine's handler and be answered a second time")
@@ -156,7 +179,7 @@ def check(P: Project, R: Report) -> None:
 
     # ------------------------------------------------------------------ R4
     created: Dict[str, str] = {}
-    for f in (ae, meths.get("_handle_sse_connection")):
+    for f in (ae, conn_entry):
         if f is None:
             continue
         for s in walk_local(f.node):
@@ -210,6 +233,9 @@ def check(P: Project, R: Report) -> None:
     R.ob("R4", "__aexit__ does not swallow the body's exception", all(r.value is None or ast.unparse(r.value) in ("False", "None") for r in rets), ax.where, "")
 
     # ------------------------------------------------------------------ R5
+    absorbers = {cleanup.fq: CANCEL_ABSORBERS["cleanup"], send.fq: CANCEL_ABSORBERS["poster"], conn_entry.fq: CANCEL_ABSORBERS["connection-entry"]}
+    if sender_entry is not None:
+        absorbers[sender_entry.fq] = CANCEL_ABSORBERS["sender-entry"]
     for f in sorted(meths.values(), key=lambda f: f.fq):
         for t in walk_local(f.node):
             if not isinstance(t, ast.Try):
@@ -223,8 +249,8 @@ def check(P: Project, R: Report) -> None:
                 if reraises:
                     R.ob("R5", f"{f.qual}: CancelledError handler re-raises", True, f"{rel}:{h.lineno}", "")
                 else:
-                    R.ob("R5", f"{f.qual}: absorbing CancelledError is justified", f.fq in CANCEL_ABSORBERS, f"{rel}:{h.lineno}", CANCEL_ABSORBERS.get(f.fq, "a handler swallows task cancellation: leaving the context may hang or leak the task"),
-                         sample=f"R5 {f.qual}: {CANCEL_ABSORBERS.get(f.fq, 'UNJUSTIFIED')[:70]}")
+                    R.ob("R5", f"{f.qual}: absorbing CancelledError is justified", f.fq in absorbers, f"{rel}:{h.lineno}", absorbers.get(f.fq, "a handler swallows task cancellation: leaving the context may hang or leak the task"),
+                         sample=f"R5 {f.qual}: {absorbers.get(f.fq, 'UNJUSTIFIED')[:70]}")
     # broad `except Exception` does not catch CancelledError on supported Pythons (>= 3.8): nothing to check there
 
     # ------------------------------------------------------------------ R6
